@@ -22,6 +22,10 @@ package main
 //     executed as well, but only watched for panics (the unchanged library is not atomic there).
 //
 // Nothing here knows what the operations are supposed to return: the oracle is the twin.
+//
+// Modes `iter` (default of -prop C13) and `retry` additionally run the iterator retry matrix of
+// readfault_iter.go on every scenario: every iterator object x every advancing method (and mixtures)
+// x a transient fault at the reads of the drain, the failed call retried on the same iterator.
 
 import (
 	"errors"
@@ -1407,8 +1411,14 @@ func cmdReadFault(a Args) {
 		fams["C02"] = true
 	case "iter":
 		fams["C13"] = true
+	case "retry": // the iterator retry matrix alone (readfault_iter.go)
 	default:
 		fams["C01"], fams["C02"], fams["C13"] = true, true, true
+	}
+	matrix := mode == "iter" || mode == "retry"
+	matrixBudget := 16 // fault positions per drained iterator
+	if all {
+		matrixBudget = 64
 	}
 	rep := NewReport(prop, a.Seed)
 	rep.Rule = "committed scenario (flat array / map over several slabs and index levels, or a parent with inlined and multi-slab child arrays/maps, large strings in their own slabs, SomeValue wrappers, root maps with folded first-level digests = collision groups) at T in {256,512}; " +
@@ -1416,6 +1426,9 @@ func cmdReadFault(a Args) {
 		"a fault-free twin on a copy of the ledger with a fresh storage (cold cache) gives the number R of ledger reads and the reference answer; for every k<R (24 sampled incl. 0,1,R-1 if R>24) a fresh copy executes the request with read k failing once: " +
 		"reads of lookups/iterations and of the descent of a mutation are strict: error must be ExternalError; deep dump + Count + VerifyArray/VerifyMap unchanged (checked in one of the runs per k, another retries at once, a third one for mutations lets the first read of the retry fail as well); the retried request must return what the twin returned; content through Get/iteration, deep slab dump, verification and the committed registers must equal the twin's. " +
 		"reads after the point of mutation and PopIterate: panics only. non-trivial = scenario with >= 10 strict cases"
+	if matrix {
+		rep.Rule += ". Iterator retry matrix (modes iter, retry): on the root, up to two multi-slab child maps, two multi-slab child arrays and one small child (cold cache, cache dropped after obtaining the handle, or partially warmed by lookups) EVERY iterator object (Array Iterator / ReadOnly / ReadOnlyWithMutationCallback / the three range iterators with random bounds; OrderedMap Iterator / ReadOnly / ReadOnlyWithMutationCallback, each advanced by Next only, NextKey only, NextValue only, a random mixture on one iterator, and a mixture where the retry uses another method) is drained with ledger read k failing once for every k below the reads of the fault-free twin (16 per drain, 64 with +all: stratified over method in progress x register of the container's tree or key/value/child register, plus first and last), and for the mutable map iterator with the hash-input provider / comparator failing once; the failed call is retried on the same iterator; the concatenated yield must equal the twin's (projection of the Next()-only drain), the end is sticky, Count() and the loaded-value iteration afterwards equal the twin's; read-only map iterators after a failed key/value register read: observation only"
+	}
 	master := NewRng(a.Seed)
 	defer atree.VerifSetThreshold(1024)
 	nOps := a.Steps
@@ -1472,8 +1485,13 @@ func cmdReadFault(a Args) {
 					ops = append(ops, sc.mapOps(gr, path, drop, ts, fams)...)
 				}
 			}
+			mr := hr.Fork(11) // drawn after everything else: the requests of a history do not depend on the matrix
 			if len(ops) == 0 {
-				rep.Event("scenario_without_request_of_the_selected_family")
+				if matrix {
+					r.iterMatrix(mr, matrixBudget)
+				} else {
+					rep.Event("scenario_without_request_of_the_selected_family")
+				}
 				return
 			}
 			// a random selection of nOps of them (all if fewer)
@@ -1487,6 +1505,9 @@ func cmdReadFault(a Args) {
 			for i := range ops {
 				r.doOp(i, &ops[i])
 				rep.Steps++
+			}
+			if matrix && r.nviol <= 4 {
+				r.iterMatrix(mr, matrixBudget)
 			}
 			if h < 3 {
 				rep.Sample(fmt.Sprintf("%s: %s T=%d fold=%d, %d registers, %d child containers, first request: %s on the %s", tag, sc.kind, sc.T, sc.mod, len(sc.base.Segs), len(targets)-1, ops[0].name, r.where(&ops[0])))
